@@ -4,7 +4,7 @@ CONSTANTS
   MaxKeys = 6
   Depth = 0
   MaxLevel = 0
-  MaxFaults = 0
+  MaxFaults = 99
   DevScope = FALSE
   DevCacheLoc = FALSE
   DevDelKey = FALSE
